@@ -13,3 +13,18 @@ func TestC01(t *testing.T) {
 	defer r.Write()
 	vtx.Explore(t, prof.Relay("c01", map[string]bool{"leak-c2p": true, "policy": true}), r)
 }
+
+// TestC01Connect: the TCP connect target is subject to the operator's
+// permission handler as well: TCP allocations x policies, Connect / inbound
+// connections / CreatePermission for allowed and refused peers.
+func TestC01Connect(t *testing.T) {
+	r := rep.New("C01")
+	defer r.Write()
+	p := prof.IsolationTCP("c01-connect-policy", map[string]bool{"policy": true, "leak-c2p": true, "tcp": true})
+	p.Configs = []vtx.Config{{Stream: true, Policy: "denyB"}, {Stream: true, Policy: "denyAll"}, {Stream: true}}
+	p.Depth = 3
+	if rep.Thorough() {
+		p.Depth = 4
+	}
+	vtx.Explore(t, p, r)
+}
